@@ -4,6 +4,7 @@
   so restarts and foreign events (which leave `P` alone) are covered by quantifying over `P`.
 -/
 import Kopf.Lemmas.C02_Cycle
+import Kopf.Lemmas.C02_Sub
 namespace Kopf.C02
 
 /-- A handler whose success or permanent failure is recorded is never invoked again. -/
@@ -371,5 +372,153 @@ example :
     c.invoked = [("h", 0)] ∧ c.closed = false ∧ (c.P' "h").isSome = true ∧ NoExtras cfg (fun _ => none) := by
   refine ⟨by decide, by decide, by decide, ?_⟩
   intro i _ r h; simp at h
+
+/-- The converse for the all-at-once lifecycle: a selected handler that is still due (not finished, not
+    sleeping, within its timeout/retries) IS invoked in this pass, with `retry` = its recorded attempts.
+    (For one-by-one/asap one such handler is planned per pass; which one is `plan`.) -/
+theorem due_invoked_all_at_once (cfg : Cfg) (P : Store) (now now1 : Tick) (exec : Id → Nat → Outcome)
+    (hr : handlerReasons.contains cfg.reason = true) (hlc : cfg.lifecycle = .allAtOnce)
+    (i : Id) (hsel : i ∈ cfg.selected) (ho : i ∈ cfg.owned)
+    (haw : (startRec cfg P now (extras cfg P now) i).awakened now = true)
+    (hpre : precheckFails (cfg.limits i) (startRec cfg P now (extras cfg P now) i) now = false) :
+    (i, match P i with | some r => r.retries | none => 0) ∈ (cycle cfg P now now1 exec).invoked := by
+  have he : cfg.selected.isEmpty = false := by
+    cases hl : cfg.selected with
+    | nil => rw [hl] at hsel; cases hsel
+    | cons _ _ => rfl
+  rw [cycle_main cfg P now now1 exec hr he]
+  simp only
+  obtain ⟨h, hst, _, hrec⟩ := preState_selected (P := P) (now := now) hsel ho
+  have hn : (match P i with | some r => r.retries | none => 0) = h.r.retries := by
+    rw [hrec]; exact (startRec_retries cfg P now (extras cfg P now) i).symm
+  rw [hn]
+  exact execOnce_allAtOnce_invokes hlc hsel hst (by rw [hrec]; exact haw) (by rw [hrec]; exact hpre)
+
+/-! ### Sub-handlers (`subhandling.execute`, model `subPass`)
+
+`subPass` is a function of the records `P` the object carries (and of the sub-handlers the parent
+registered in this invocation), like `cycle`: restarts and foreign events are covered by quantifying over `P`. -/
+
+/-- A sub-handler whose success or permanent failure is recorded is never invoked again. -/
+theorem sub_no_rerun (cfg : Cfg) (P : Store) (now now1 : Tick) (exec : Id → Nat → Outcome)
+    (i : Id) (n : Nat) (r : Rec) (ho : i ∈ cfg.owned) (hP : P i = some r) (hfin : r.finished = true) :
+    (i, n) ∉ (subPass cfg P now now1 exec).invoked := by
+  intro hin
+  rw [subPass_invoked_eq] at hin
+  obtain ⟨_, hs, hst, haw, _⟩ := execOnce_invoked hin
+  obtain ⟨a, h0⟩ := subSt0_stored (now := now) ho hP
+  rw [h0] at hst
+  cases hst
+  have := awakened_not_finished haw
+  simp [hfin] at this
+
+/-- A sub-handler still due is invoked with `retry` = its recorded attempts (0 when nothing is recorded). -/
+theorem sub_retry_kwarg (cfg : Cfg) (P : Store) (now now1 : Tick) (exec : Id → Nat → Outcome)
+    (hsub : ∀ i ∈ cfg.selected, i ∈ cfg.owned)
+    (i : Id) (n : Nat) (hin : (i, n) ∈ (subPass cfg P now now1 exec).invoked) :
+    n = (match P i with | some r => r.retries | none => 0) := by
+  rw [subPass_invoked_eq] at hin
+  obtain ⟨hsel, hs, hst, _, hn⟩ := execOnce_invoked hin
+  obtain ⟨h, hst', _, hr, _⟩ := subSt0_selected (P := P) (now := now) hsel (hsub i hsel)
+  rw [hst] at hst'
+  cases hst'
+  rw [hn, hr]
+  cases P i <;> simp [fresh]
+
+/-- The parent finishes exactly when every selected sub-handler has finished: until then it gets the
+    `HandlerChildrenRetry` outcome (not final), i.e. it stays unfinished and the cycle stays open. -/
+theorem parent_final_iff_subs_finished (cfg : Cfg) (P : Store) (now now1 : Tick) (exec : Id → Nat → Outcome)
+    (hsub : ∀ i ∈ cfg.selected, i ∈ cfg.owned) :
+    (subPass cfg P now now1 exec).outcome.final = true ↔
+      ∀ i ∈ cfg.selected, ∃ r, (subPass cfg P now now1 exec).P' i = some r ∧ r.finished = true := by
+  rw [subPass_final_eq, sub_done_iff hsub]
+  constructor
+  · intro h i hi
+    obtain ⟨hs, hst, hfin⟩ := h i hi
+    exact ⟨hs.r, subPass_P'_of_st hst, hfin⟩
+  · intro h i hi
+    obtain ⟨r, hP', hfin⟩ := h i hi
+    obtain ⟨h0, hp0, _, _⟩ := subSt0_selected (P := P) (now := now) hi (hsub i hi)
+    obtain ⟨hs, hst, _⟩ := execOnce_st_of (cfg := cfg) (now := now) (now1 := now1) (exec := exec) hp0
+    have hst' : (subPass cfg P now now1 exec).st i = some hs := by rw [subPass_st_eq]; exact hst
+    rw [subPass_P'_of_st hst'] at hP'
+    cases hP'
+    exact ⟨hs, hst', hfin⟩
+
+/-- A parent with unfinished children is neither a success nor a permanent failure. -/
+theorem parent_retry_is_error_not_final (cfg : Cfg) (P : Store) (now now1 : Tick) (exec : Id → Nat → Outcome) :
+    (subPass cfg P now now1 exec).outcome.error = !(subPass cfg P now now1 exec).outcome.final := rfl
+
+/-- Every record the sub-pass knows (loaded or written) is referenced by the parent's outcome … -/
+theorem sub_records_covered (cfg : Cfg) (P : Store) (now now1 : Tick) (exec : Id → Nat → Outcome)
+    (i : Id) (h : HS) (hst : (subPass cfg P now now1 exec).st i = some h) :
+    i ∈ (subPass cfg P now now1 exec).outcome.subrefs := by
+  have hst' := hst
+  rw [subPass_st_eq] at hst'
+  obtain ⟨h0, hp0, _, _⟩ := execOnce_st_some hst'
+  have hk := subSt0_known hp0
+  show i ∈ ((known cfg).eraseDups.filter (fun i => ((subPass cfg P now now1 exec).st i).isSome))
+  simp only [List.mem_filter]
+  exact ⟨List.mem_eraseDups.2 hk, by rw [hst]; rfl⟩
+
+/-- … and the sub-pass writes nothing else. -/
+theorem sub_writes_only_known (cfg : Cfg) (P : Store) (now now1 : Tick) (exec : Id → Nat → Outcome)
+    (i : Id) (hne : (subPass cfg P now now1 exec).P' i ≠ P i) :
+    i ∈ (subPass cfg P now now1 exec).outcome.subrefs := by
+  cases hst : (subPass cfg P now now1 exec).st i with
+  | none => rw [subPass_P'_eq] at hne; unfold store at hne; simp [hst] at hne
+  | some h => exact sub_records_covered cfg P now now1 exec i h hst
+
+/-- Hence when the top-level cycle closes, the records of the sub-handlers of every parent invoked in
+    the closing pass are purged with it (the purge is applied to the patch after the sub-pass's writes). -/
+theorem sub_records_purged_on_close (cfg : Cfg) (P : Store) (now now1 : Tick) (exec : Id → Nat → Outcome)
+    (p : Id) (n : Nat) (hinv : (p, n) ∈ (cycle cfg P now now1 exec).invoked)
+    (scfg : Cfg) (sP : Store) (snow snow1 : Tick) (sexec : Id → Nat → Outcome)
+    (hout : exec p n = (subPass scfg sP snow snow1 sexec).outcome)
+    (hc : (cycle cfg P now now1 exec).closed = true) :
+    ∀ i h, (subPass scfg sP snow snow1 sexec).st i = some h → (cycle cfg P now now1 exec).P' i = none := by
+  intro i h hst
+  by_cases hr : handlerReasons.contains cfg.reason = true
+  · by_cases he : cfg.selected.isEmpty = true
+    · rw [cycle_no_handlers cfg P now now1 exec hr he] at hinv; simp at hinv
+    · have he' : cfg.selected.isEmpty = false := by simpa using he
+      apply closed_purges_subrefs cfg P now now1 exec hr he' hc
+      have hinv' := hinv
+      rw [cycle_main cfg P now now1 exec hr he'] at hinv'
+      simp only at hinv'
+      obtain ⟨hsel, _⟩ := execOnce_invoked hinv'
+      obtain ⟨hs, _, _, hpost⟩ := postState_invoked hinv'
+      have hk : p ∈ known cfg := by simp [known, hsel]
+      unfold allSubrefs
+      simp only [List.mem_flatMap]
+      refine ⟨p, hk, ?_⟩
+      unfold postState
+      rw [hpost]
+      simp only [withOutcome]
+      apply List.mem_eraseDups.2
+      simp only [List.mem_append]
+      right
+      rw [hout]
+      exact sub_records_covered scfg sP snow snow1 sexec i h hst
+  · have hr' : handlerReasons.contains cfg.reason = false := by simpa using hr
+    rw [cycle_not_handler_reason cfg P now now1 exec hr'] at hinv
+    simp at hinv
+
+-- non-vacuity: a parent with two sub-handlers; "p/a" succeeds, "p/b" asks to retry in 5 ticks:
+-- the parent gets the children-retry outcome carrying both references and the delay
+example :
+    let cfg : Cfg := { owned := ["p/a", "p/b"], selected := ["p/a", "p/b"], limits := fun _ => ⟨none, none⟩,
+                       reason := "create", lifecycle := .allAtOnce }
+    let s := subPass cfg (fun _ => none) 0 0
+      (fun i _ => if i = "p/a" then { final := true, delay := none, error := false, subrefs := [] }
+                  else { final := false, delay := some 5, error := true, subrefs := [] })
+    s.invoked = [("p/a", 0), ("p/b", 0)] ∧
+    s.outcome = { final := false, delay := some 5, error := true, subrefs := ["p/a", "p/b"] } ∧
+    -- the next sub-pass (from what was stored) invokes only "p/b", with retry = 1
+    (subPass cfg s.P' 5 5 (fun _ _ => { final := true, delay := none, error := false, subrefs := [] })).invoked
+      = [("p/b", 1)] ∧
+    (subPass cfg s.P' 5 5 (fun _ _ => { final := true, delay := none, error := false, subrefs := [] })).outcome.final
+      = true := by
+  refine ⟨by decide, by decide, by decide, by decide⟩
 
 end Kopf.C02
